@@ -24,6 +24,24 @@ Definition l2_verdict (cb : N) (backing : bool) (v g : N)
     else match fm with Some x => if x =? v then 0 else 1 | None => 1 end
   else 0.
 
+(* the clusters an entry occupies: the specification counts the clusters that hold bytes of
+   [offset, offset + length) for compressed data, one cluster for a standard allocation *)
+Definition alloc_verdict (cb v : N) (al : option (N * N)) : N :=
+  if s_l2_valid cb v then
+    let want :=
+      if s_l2_compressed v then
+        let o := s_l2_coffset cb v in
+        let first := o / 2 ^ cb in
+        let last := (o + s_l2_clength cb v - 1) / 2 ^ cb in
+        Some (first * 2 ^ cb, last - first + 1)
+      else if s_l2_offset v =? 0 then None else Some (s_l2_offset v, 1) in
+    match al, want with
+    | None, None => 0
+    | Some (a, b), Some (c, d) => if (a =? c) && (b =? d) then 0 else 1
+    | _, _ => 1
+    end
+  else 0.
+
 Definition top_verdict (v l1off : N) (l1cop : bool) (rtoff rtres : N) : N :=
   if (l1off =? s_l1_offset v) && Bool.eqb l1cop (s_l1_copied v) && (rtoff =? s_rt_offset v)
      && (rtres =? s_rt_reserved v) then 0 else 1.
